@@ -164,10 +164,10 @@ def py_fire(pbc, calc, shot, rng_ft, step_ft, extra, time_step):
         return 'err:domain' if 'math domain' in str(ex) else 'err:value'
 
 
-def fire_line(pbc, calc, shot, rng_ft, step_ft, extra, time_step):
+def fire_line(pbc, calc, shot, rng_ft, step_ft, extra, time_step, cfg=None):
     flags = 31 if extra else 8
     # Distance.Foot(x) >> Distance.Foot round-trips through inches: send what the solver actually receives
     U = pbc.Unit
     r = U.Foot(rng_ft) >> U.Foot
     s = U.Foot(step_ft) >> U.Foot
-    return f'fire {enc_config(calc._calc._config)} {enc_shot(pbc, shot)} {fb(r)} {fb(s)} {flags} {fb(time_step)}'
+    return f'fire {enc_config(cfg if cfg is not None else calc._calc._config)} {enc_shot(pbc, shot)} {fb(r)} {fb(s)} {flags} {fb(time_step)}'
